@@ -131,6 +131,10 @@ type cluster struct {
 	leaseMutex   sync.RWMutex
 	sessionMutex sync.RWMutex
 
+	// mutexLocks are the process level locks of the cluster mutexes, by name.
+	mutexLocks      map[string]*sync.Mutex
+	mutexLocksMutex sync.Mutex
+
 	done chan struct{}
 }
 
